@@ -32,6 +32,8 @@ structure Cfg where
   vel : Option (List Int) -- predictor: constant drift per unit time, none = no predictor
   drop : Bool             -- link_strategy = 'drop'
   noOpt : Bool := false   -- validity only (C01): skip the optimality part of the relation
+  numbaCap : Bool := false -- link_strategy numba/hybrid: `numba_link` also raises when a source has
+                           -- more than 9 forward candidates (null included) - documented cap
   deriving Repr
 
 structure Source where
@@ -224,6 +226,7 @@ def stepCheck (cfg : Cfg) (st : State) (t : Int) (dsts : List Pos) (labels? : Op
   match labels? with
   | none => if capped then .capped else
             if oversize then .expectOversize
+            else if cfg.numbaCap && (stepCands cfg st t dsts).any (fun cs => cs.length > 9) then .capped
             else .bad "raised SubnetOversizeException but no sub-net is oversize"
   | some labels =>
   if oversize && !capped then .bad "returned labels although a sub-net is oversize" else
